@@ -21,6 +21,7 @@ import (
 	"strings"
 
 	"github.com/emitter-io/emitter/internal/security"
+	"github.com/golang/snappy"
 )
 
 var be = binary.BigEndian
@@ -79,6 +80,21 @@ func Parse(data string) (license License, err error) {
 	default:
 		return parseV1(data)
 	}
+}
+
+// uncompress decompresses the body of a license. A snappy block cannot expand to more than
+// 64 bytes per 3 bytes of input, hence a body which announces more is refused before the
+// announced size (up to 4 GiB for a few bytes of text) gets allocated.
+func uncompress(raw []byte) ([]byte, error) {
+	size, err := snappy.DecodedLen(raw)
+	if err != nil {
+		return nil, err
+	}
+
+	if size > 32*len(raw) {
+		return nil, snappy.ErrCorrupt
+	}
+	return snappy.Decode(nil, raw)
 }
 
 // RandN generates a crypto-random N bytes.
